@@ -4,7 +4,7 @@
   Consequence: every object the evaluator model ever holds satisfies `ObjWF`, so the
   refinement of RsjProofs/EvalObjectAbs.lean applies to it without hypothesis.
 -/
-import RsjProofs.EvalObjectWFStep
+import RsjProofs.EvalObjectWFStd
 open Std.Do
 set_option mvcgen.warning false
 set_option linter.unusedSimpArgs false
@@ -42,7 +42,7 @@ theorem step_w (t : Task) : ⦃fun st => ⌜StoreWF st⌝⦄ step cfg rec t ⦃Q
   have h8 := compareLists_w cfg rec hrec
   have h9 := objectMember_w rec hrec
   have h10 := sliceArg_w rec hrec
-  have h11 := builtinCall_w rec hrec
+  have h11 := builtinCall2_w cfg rec hrec
   have h12 := thunkBody_w cfg rec hrec
   cases t with
   | force t d => unfold step; mvcgen [h12]; wfin
